@@ -5,7 +5,7 @@
 //! This module contains low level device control implementation for `U3V` device.
 
 use std::{
-    convert::TryInto,
+    convert::{TryFrom, TryInto},
     io::Read,
     sync::{Arc, Mutex},
     time::Duration,
@@ -319,6 +319,25 @@ impl ControlHandle {
     }
 }
 
+/// Returns an error if `[address, address + len)` doesn't fit into the 64 bit address space.
+fn verify_address_range(address: u64, len: usize) -> ControlResult<()> {
+    let fits = match len.checked_sub(1) {
+        Some(last_offset) => u64::try_from(last_offset)
+            .ok()
+            .and_then(|last_offset| address.checked_add(last_offset))
+            .is_some(),
+        None => true,
+    };
+
+    if fits {
+        Ok(())
+    } else {
+        Err(ControlError::InvalidData(
+            "address range exceeds the 64 bit address space".into(),
+        ))
+    }
+}
+
 macro_rules! unwrap_or_log {
     ($expr:expr) => {{
         match $expr {
@@ -359,6 +378,7 @@ impl DeviceControl for ControlHandle {
 
     fn write(&mut self, address: u64, data: &[u8]) -> ControlResult<()> {
         unwrap_or_log!(self.assert_open());
+        unwrap_or_log!(verify_address_range(address, data.len()));
 
         let cmd = unwrap_or_log!(cmd::WriteMem::new(address, data));
         let maximum_cmd_length = self.config.maximum_cmd_length;
@@ -376,8 +396,9 @@ impl DeviceControl for ControlHandle {
         Ok(())
     }
 
-    fn read(&mut self, mut address: u64, buf: &mut [u8]) -> ControlResult<()> {
+    fn read(&mut self, address: u64, buf: &mut [u8]) -> ControlResult<()> {
         unwrap_or_log!(self.assert_open());
+        unwrap_or_log!(verify_address_range(address, buf.len()));
 
         // The maximum acknowledge length advertised by the device must be able to carry data.
         let maximum_ack_length = self.config.maximum_ack_length as usize;
@@ -386,17 +407,19 @@ impl DeviceControl for ControlHandle {
         // Chunks buffer if buffer length is larger than maximum read length calculated from
         // maximum ack length.
         let maximum_read_length = cmd::ReadMem::maximum_read_length(maximum_ack_length) as usize;
+        let mut offset: u64 = 0;
         for buf_chunk in buf.chunks_mut(maximum_read_length) {
             let read_len: u16 = buf_chunk.len().try_into().unwrap();
 
-            let cmd = cmd::ReadMem::new(address, read_len);
+            // Never overflows because the whole range lies in the address space.
+            let cmd = cmd::ReadMem::new(address + offset, read_len);
             let ack: ack::ReadMem = unwrap_or_log!(self.send_cmd(cmd));
             if ack.data.len() != buf_chunk.len() {
                 let err_msg = "read mem failed: read length mismatch";
                 return Err(ControlError::Io(anyhow::Error::msg(err_msg)));
             }
             buf_chunk.copy_from_slice(ack.data);
-            address += read_len as u64;
+            offset += u64::from(read_len);
         }
 
         Ok(())
